@@ -160,6 +160,9 @@ func TypeAwareUnmarshalValue(self interface{}, typ ast.Type) *Value {
 		}
 		return NewValueList(values)
 	case nil:
+		if typ.Kind() == ast.NullTypeKind {
+			return NewValueNull()
+		}
 		return NewNoneOption()
 	default:
 		panic(fmt.Sprintf("Cannot parse unknown JSON value: `%v` (%v) to HMS value", self, reflect.TypeOf(self)))
